@@ -6,6 +6,17 @@ props = [json.loads(l) for l in open(os.path.join(V, "properties.jsonl"))]
 
 TECH = "Rocq proof over an executable Gallina model + model/implementation correspondence"
 CLAIMS = {
+ "C02": ("proof", "Rocq theorems over the model of Powers / Compound::base_units / factor and the unit tables translated from /repo: base_units computes the dimension vector (no zero entries); for ALL compounds of proportional units, + - and `to` succeed iff both sides have the same base dimensions and are the IllegalOperation / false answer otherwise; a plain number adopts the quantity's unit on either side.",
+         "Trusted: Coq kernel + vm_compute; translator; hand-written model; correspondence on generated pairs of unit spellings; SI normalisation in Python as oracle (unit-word reading is C05)."),
+ "C03": ("proof", "Rocq theorem factor_si: a successful conversion preserves value * SI scale, for all compounds over the translated tables (all conversion factors positive, by computation); corollaries: exact round trip, via = direct, linearity, prefix = its power of ten (translated prefix table equals the SI one), scale of powers and products.",
+         "Trusted: as C02."),
+ "C04": ("proof", "Rocq theorem mul_si: Compound::mul with reconstruct / bases_match / inner_match preserves the SI value and adds the dimensions whatever derived units the heuristic re-introduces (invariants through every step of the loop); op_mul / op_div / op_pow of the evaluator give product / quotient / power of SI values and sum / difference / multiple of dimensions; products never fail.",
+         "Trusted: as C02. The debug assertion of Compound::new (non-zero powers of the result) is observed by the correspondence in debug mode, not proved."),
+ "C09": ("proof", "Rocq theorems: a conversion between kelvin, Celsius, Fahrenheit (each alone, power one) is exactly the composition of the defining formulas, with the Celsius offset and the Fahrenheit closures translated from src/units/temperature.rs; six pair formulas, invertibility, any chain = direct; an offset scale anywhere but alone with power one is refused (never yields a value).",
+         "Trusted: as C02."),
+ "C13": ("proof", "Rocq theorems: a+b=b+a (incl. success on both sides), (a+b)+c=a+(b+c), a-a=0, a*b=b*a, (a*b)*c=a*(b*c), a*(b+c)=a*b+a*c, a/a=1 dimensionless, as equalities of base-SI value and base dimensions, for all quantities (value, compound) -- literals and looked-up facts alike; corollaries of si(a+b)=si a+si b and si(a*b)=si a*si b.",
+         "Trusted: as C02; facts enter the model as the constants the real database returned."),
+
  "C01": ("proof", "Rocq theorem eval_exact: on every syntax tree of numeric shape (number leaves, percentages, OPERATION nodes folded left) the evaluator model returns a plain number equal to what exact rational arithmetic (spec/Arith.v) assigns, an error exactly where arithmetic is undefined (division by zero, zero to a negative power), and leaves the description list unchanged; by induction over the tree, the pow loop shown equal to Qpower. Tied to the code by exact numerator/denominator comparison of model and implementation on generated expressions with literals of up to 300 digits.",
          "Trusted: Coq kernel + vm_compute; the hand-written evaluator model over Coq's Q (num::BigRational assumed exact, exercised by the correspondence); the correspondence; an independent Python-fractions evaluator as oracle. That the parser yields the intended tree is C06."),
  "C06": ("proof", "Rocq theorems: the precedence-stack discipline of operation(), abstracted into frames, yields for ANY number of operators a parse valid for the documented grammar with the input as yield; that grammar is unambiguous; hence climb = canon (level splitting: ^ over * / over + - over to, left to right). The concrete lexer+parser model is tied to it inside the kernel by computation for all operator sequences of length <= 5 and all one-gap layout variants (bound in the statement). Parentheses, calls, casts and deeper trees are decided by correspondence plus an independent tree evaluator.",
